@@ -861,6 +861,28 @@ def rule_startup_detectors(A, R, rename=None):
                 return False
         return True
 
+    from rules_more import requirement_field
+    from rules_c04 import positive_answer
+    rf_ = requirement_field(A)
+    pos_ = positive_answer(A)
+
+    def edges_needed(rule_, I_, fr_, what, kn_):
+        """... and what it is going to be rebuilt from is asked for: the 'needed' flag it declares for its incoming dependencies
+        in that case is 'needed' on every path (declared 'not needed', an up-to-date Ephemeral input is skipped)"""
+        if pos_ is None:
+            return
+        wes = [v for k, v in I_.rec.facts.items() if k[0] == "write_edge" and v["proj"] == rf_
+               and is_role((v["b"], I_.sym_info.get(v["b"], (frozenset(), None))[0]), "topo")]
+        vals = set()
+        for v in wes:
+            if v["value"][0] == "fin":
+                vals |= set(v["value"][2])
+            else:
+                vals.add(None)
+        ROB(rule_, "startup | %s job %s | declares its incoming dependencies as needed" % (kn_, what),
+            bool(wes) and vals == {pos_}, detail="flag values declared: %s" % sorted(map(str, vals)),
+            site=A.site(wes[0]) if wes else "")
+
     ne_true = lambda I, state, frame, bi, t, args, span: [(TRUE, state)]
     ne_false = lambda I, state, frame, bi, t, args, span: [(FALSE, state)]
     eq_true = ne_true
@@ -874,6 +896,7 @@ def rule_startup_detectors(A, R, rename=None):
             tos |= set(w["to"])
         ROB("R3.1", "startup | %s job whose input-name list changed | is marked invalidated on every path" % kn,
              must_write(I, fr, ws) and bool(tos) and tos <= inv, detail="states written: %s" % A.snames(tos))
+        edges_needed("R3.1e", I, fr, "whose input-name list changed", kn)
         # R3.4: no own record at all (and it has upstreams)
         I, fr, ws = startup({"std::collections::HashMap::<K, V, S, A>::get": force_hist_none(A),
                              "std::collections::HashMap::<K, V, S, A>::contains_key": lambda I_, st_, fr_, bi_, t_, a_, sp_: [(FALSE, st_)],
@@ -886,6 +909,7 @@ def rule_startup_detectors(A, R, rename=None):
         ROB("R3.4", "startup | %s job with upstreams but without any own record | is marked invalidated on every path" % kn,
              must_write(I, fr, ws) and bool(tos) and tos <= inv,
              detail="a job that has no record of a successful execution leaves startup un-invalidated (states written: %s)" % A.snames(tos))
+        edges_needed("R3.4e", I, fr, "with upstreams but without any own record", kn)
         if kind not in cleanup_kinds:
             # R3.2: the result does not exist
             I, fr, ws = startup({"std::cmp::PartialEq::ne": ne_false, "std::cmp::PartialEq::eq": ne_true,
@@ -896,6 +920,7 @@ def rule_startup_detectors(A, R, rename=None):
                 tos |= set(w["to"])
             ROB("R3.2", "startup | %s job whose result does not exist | is marked invalidated on every path" % kn,
                  must_write(I, fr, ws) and bool(tos) and tos <= inv, detail="states written: %s" % A.snames(tos))
+            edges_needed("R3.2e", I, fr, "whose result does not exist", kn)
 
 
 @prop("C03")
